@@ -86,11 +86,13 @@ pub fn gen_config(rng: &mut Rng, profile: Profile) -> Config {
         }
     };
     if profile == Batch {
-        let keys = rng.range(4, 14) as u32;
+        // "wide" configurations hold enough residents for long victim scans
+        let wide = rng.chance(1, 4);
+        let keys = if wide { rng.range(18, 32) as u32 } else { rng.range(4, 14) as u32 };
         let expiry = rng.chance(1, 5);
         return Config {
             kind: Kind::Sync,
-            cap: Some(*rng.pick(&[1u64, 2, 3, 3, 4, 4, 5, 6, 8, 10])),
+            cap: Some(if wide { rng.range(12, 24) } else { *rng.pick(&[1u64, 2, 3, 3, 4, 4, 5, 6, 8, 10]) }),
             weigher: rng.chance(2, 3),
             ttl: if expiry && rng.chance(1, 2) { Some(pick_duration(rng)) } else { None },
             tti: if expiry && rng.chance(1, 2) { Some(pick_duration(rng)) } else { None },
@@ -430,8 +432,30 @@ impl Gen {
         let k = self.rng.below(nkeys as u64) as u32;
         let resident: Vec<u32> = truth.visible_candidates(now);
         let non_resident: Vec<u32> = (0..nkeys).filter(|x| !resident.contains(x)).collect();
-        let choice = self.rng.below(8);
+        let choice = if self.profile == Profile::Batch && self.rng.chance(1, 4) { 99 } else { self.rng.below(8) };
         match choice {
+            // a popular, heavy candidate is queued first; then every other resident from the LRU end is
+            // invalidated while the candidate's op is still queued: its victim scan has to walk past
+            // scattered nodes whose entries have left the map
+            99 => {
+                let mut by_recency: Vec<(u64, u32)> = resident.iter().filter_map(|k| truth.cur(*k).map(|l| (l.use_seq, *k))).collect();
+                by_recency.sort();
+                let c = if non_resident.is_empty() { k } else { *self.rng.pick(&non_resident) };
+                for _ in 0..self.rng.range(2, 5) {
+                    self.script.push_back(Op::Get { k: c });
+                }
+                let cap = cfg.cap.unwrap_or(4);
+                let w = if cfg.weigher { self.rng.range((cap / 2).max(1), cap) as u32 } else { 1 };
+                let vid = self.vid();
+                self.script.push_back(Op::Insert { k: c, vid, w });
+                let step = self.rng.range(2, 3) as usize;
+                for (i, (_, key)) in by_recency.iter().enumerate() {
+                    if i % step == 0 && self.rng.chance(4, 5) {
+                        self.script.push_back(Op::Invalidate { k: *key });
+                    }
+                }
+                self.script.push_back(Op::Sync);
+            }
             // a candidate that is looked up m times before it is inserted (popular newcomer)
             0 | 1 => {
                 let c = if non_resident.is_empty() { k } else { *self.rng.pick(&non_resident) };
